@@ -650,6 +650,116 @@ def normalise_loops(stmts: list[ast.stmt]) -> list[ast.stmt]:
     return rec(stmts)
 
 
+def extend_to_augassign(stmts: list[ast.stmt]) -> list[ast.stmt]:
+    """x.extend(<comprehension>)  ->  x += [<comprehension>]   (x a local name)"""
+    class V(ast.NodeTransformer):
+        def visit_Expr(self, node):
+            c = node.value
+            if isinstance(c, ast.Call) and isinstance(c.func, ast.Attribute) and c.func.attr == "extend" and isinstance(c.func.value, ast.Name) \
+                    and len(c.args) == 1 and not c.keywords and isinstance(c.args[0], (ast.ListComp, ast.GeneratorExp)):
+                comp = ast.ListComp(elt=c.args[0].elt, generators=c.args[0].generators)
+                return ast.copy_location(ast.AugAssign(target=ast.Name(id=c.func.value.id, ctx=ast.Store()), op=ast.Add(), value=comp), node)
+            return node
+
+        def visit_FunctionDef(self, node):
+            return node
+        visit_AsyncFunctionDef = visit_ClassDef = visit_Lambda = visit_FunctionDef
+    out = [V().visit(s) for s in stmts]
+    for s in out:
+        ast.fix_missing_locations(s)
+    return out
+
+
+def map_pushdown(stmts: list[ast.stmt], pure_calls=()) -> list[ast.stmt]:
+    """P = []; .. P.append(E) / P.extend(G) / P += G ..; M = [F(v) for v in P]      (P used for nothing else, F pure)
+       ->   M = []; .. M.append(F(E)) / M += [F(v) for v in G] ..
+    mapping a list after it has been collected and mapping each element as it is collected give the same list"""
+    stmts = list(stmts)
+    loads: dict[str, list] = {}
+    stores: dict[str, int] = {}
+    for s in stmts:
+        for n in ast.walk(s):
+            if isinstance(n, ast.Name):
+                if isinstance(n.ctx, ast.Load):
+                    loads.setdefault(n.id, []).append(n)
+                else:
+                    stores[n.id] = stores.get(n.id, 0) + 1
+    for j, s in enumerate(stmts):
+        if not (isinstance(s, ast.Assign) and len(s.targets) == 1 and isinstance(s.targets[0], ast.Name) and isinstance(s.value, ast.ListComp)
+                and len(s.value.generators) == 1 and not s.value.generators[0].ifs and isinstance(s.value.generators[0].iter, ast.Name)):
+            continue
+        P, M = s.value.generators[0].iter.id, s.targets[0].id
+        tgt, F = s.value.generators[0].target, s.value.elt
+        if stores.get(M) != 1 or P == M or not is_pure(F, pure_calls):
+            continue
+        tnames = {n.id for n in ast.walk(tgt) if isinstance(n, ast.Name)}
+        if any(isinstance(n, ast.Name) and n.id not in tnames and stores.get(n.id, 0) > 0 for n in ast.walk(F)):
+            continue
+        inits = [i for i, x in enumerate(stmts[:j]) if isinstance(x, ast.Assign) and len(x.targets) == 1 and isinstance(x.targets[0], ast.Name)
+                 and x.targets[0].id == P and ((isinstance(x.value, ast.List) and not x.value.elts) or (isinstance(x.value, ast.Call) and u(x.value.func) == "list" and not x.value.args))]
+        if len(inits) != 1:
+            continue
+        # every other mention of P is a collecting statement between the two
+        sites = []
+
+        def collect(block):
+            for x in block:
+                if isinstance(x, ast.Expr) and isinstance(x.value, ast.Call) and isinstance(x.value.func, ast.Attribute) and isinstance(x.value.func.value, ast.Name) \
+                        and x.value.func.value.id == P and x.value.func.attr in ("append", "extend") and len(x.value.args) == 1 and not x.value.keywords:
+                    sites.append(x)
+                elif isinstance(x, ast.AugAssign) and isinstance(x.target, ast.Name) and x.target.id == P and isinstance(x.op, ast.Add):
+                    sites.append(x)
+                for fld in ("body", "orelse", "finalbody"):
+                    b = getattr(x, fld, None)
+                    if isinstance(b, list) and b and isinstance(b[0], ast.stmt) and not isinstance(x, (ast.FunctionDef, ast.AsyncFunctionDef, ast.ClassDef)):
+                        collect(b)
+                if isinstance(x, ast.Try):
+                    for h in x.handlers:
+                        collect(h.body)
+        collect(stmts[inits[0] + 1:j])
+        n_mentions = len(loads.get(P, [])) + stores.get(P, 0)
+        n_site_mentions = sum(1 + sum(1 for n in ast.walk(x.value if isinstance(x, ast.AugAssign) else x.value.args[0]) if isinstance(n, ast.Name) and n.id == P) for x in sites)
+        if not sites or n_mentions != 1 + 1 + n_site_mentions or n_site_mentions != len(sites):
+            continue
+
+        def image(e):
+            # F with the comprehension target bound to e
+            if isinstance(tgt, ast.Name):
+                return _Subst({tgt.id: e}).visit(copy.deepcopy(F))
+            if isinstance(tgt, ast.Tuple) and isinstance(e, ast.Tuple) and len(tgt.elts) == len(e.elts) and all(isinstance(t, ast.Name) for t in tgt.elts):
+                return _Subst({t.id: v for t, v in zip(tgt.elts, e.elts)}).visit(copy.deepcopy(F))
+            return None
+        ok = True
+        new_sites = {}
+        for x in sites:
+            if isinstance(x, ast.Expr) and x.value.func.attr == "append":
+                im = image(x.value.args[0])
+                if im is None:
+                    ok = False
+                    break
+                new = ast.Expr(ast.Call(func=ast.Attribute(value=ast.Name(id=M, ctx=ast.Load()), attr="append", ctx=ast.Load()), args=[im], keywords=[]))
+            else:
+                src = x.value if isinstance(x, ast.AugAssign) else x.value.args[0]
+                comp = ast.ListComp(elt=copy.deepcopy(F), generators=[ast.comprehension(target=copy.deepcopy(tgt), iter=src, ifs=[], is_async=0)])
+                new = ast.AugAssign(target=ast.Name(id=M, ctx=ast.Store()), op=ast.Add(), value=comp)
+            ast.copy_location(new, x)
+            ast.fix_missing_locations(new)
+            new_sites[id(x)] = new
+        if not ok:
+            continue
+
+        class R(ast.NodeTransformer):
+            def visit(self, node):
+                if id(node) in new_sites:
+                    return new_sites[id(node)]
+                return super().visit(node)
+        init = stmts[inits[0]]
+        init.targets[0] = ast.Name(id=M, ctx=ast.Store())
+        mid = [R().visit(x) for x in stmts[inits[0] + 1:j]]
+        return map_pushdown(stmts[:inits[0] + 1] + mid + stmts[j + 1:], pure_calls)
+    return stmts
+
+
 def unroll_literal_loops(stmts: list[ast.stmt]) -> list[ast.stmt]:
     """for T in (A, B, C): BODY   ->   T = A; BODY; T = B; BODY; T = C; BODY      (a literal sequence of at most 6 items, BODY without
     break / continue of this loop): a table-driven loop and its written-out cases coincide"""
@@ -676,6 +786,19 @@ def unroll_literal_loops(stmts: list[ast.stmt]) -> list[ast.stmt]:
                 for b_ in s.body:
                     walk(b_)
                 return found
+            def simple(x):
+                return isinstance(x, (ast.Constant, ast.Lambda)) or _attr_chain(x) is not None
+            tn = [n.id for n in ast.walk(s.target) if isinstance(n, ast.Name)]
+            direct = not (set(tn) & _assigned_names(s.body)) and all(
+                simple(e) if isinstance(s.target, ast.Name) else (isinstance(e, ast.Tuple) and isinstance(s.target, ast.Tuple) and len(e.elts) == len(s.target.elts)
+                                                                  and all(isinstance(t, ast.Name) for t in s.target.elts) and all(simple(x) for x in e.elts))
+                for e in s.iter.elts)
+            if not own((ast.Break, ast.Continue)) and direct:
+                # the entries are names / constants / lambdas: each case is the body with the entry written in
+                for e in s.iter.elts:
+                    mp = {s.target.id: e} if isinstance(s.target, ast.Name) else {t.id: x for t, x in zip(s.target.elts, e.elts)}
+                    out += [_Subst(dict(mp)).visit(copy.deepcopy(b_)) for b_ in s.body]
+                continue
             if not own((ast.Break, ast.Continue)):
                 for e in s.iter.elts:
                     bind = ast.Assign(targets=[copy.deepcopy(s.target)], value=copy.deepcopy(e))
